@@ -16,6 +16,8 @@ def _slices(n):
         out['G2'] = ['slice', 1, None, 2]
     return out
 
+THOROUGH_SEEDS = 2
+
 
 def cases(tier, seed):
     rng = random.Random(seed + 8)
